@@ -8,9 +8,10 @@ import (
 
 func TestReplay(t *testing.T) {
 	verif.ReplayMain(map[string]func(){
-		"HarnessFaults":         HarnessFaults,
-		"HarnessHTTPAtMostOnce": HarnessHTTPAtMostOnce,
-		"HarnessNotify":         HarnessNotify,
-		"HarnessRetry":          HarnessRetry,
+		"HarnessFailingNotifications": HarnessFailingNotifications,
+		"HarnessFaults":               HarnessFaults,
+		"HarnessHTTPAtMostOnce":       HarnessHTTPAtMostOnce,
+		"HarnessNotify":               HarnessNotify,
+		"HarnessRetry":                HarnessRetry,
 	})
 }
